@@ -1,8 +1,8 @@
 """C12 - fail-closed: a write either raises or yields a faithful, well-formed file.  (guard inventory)
 
 A conjunction of guard-exists-and-dominates obligations, one per rejection the statement names:
-R12.1 (CFG) check_objects (origin, channels, frames present; channels registered; references) dominates record generation.
-R12.2 (CFG + AST) per data set on the wrapper / loading path: lookup failure raises; dtype outside the table raises;
+R12.1 (inlined value-flow summaries) check_objects (origin, channels, frames present; channels registered; references) dominates record generation.
+R12.2 (value-flow normal form of the chunk-dtype plan + CFG) per data set on the wrapper / loading path: lookup failure raises; dtype outside the table raises;
       more than 2 dimensions raises; the row counts of all mapped data sets are compared on their raw leading dimensions
       and a difference raises, before the first row is loaded.
 R12.3 (shared) IDENT <= 255 / strict ASCII (C06 R06.3), UVARI range (C06 R06.2), no masking before pack (C06 R06.1),
